@@ -553,6 +553,82 @@ def rand_hybrid(rng, small=False):
     return dict(n=n, ops=ops)
 
 
+NEG_OK = {"Rgate": 1, "Sgate": 2, "Dgate": 2, "Xgate": 1, "Zgate": 1, "Pgate": 1, "BSgate": 2, "S2gate": 2, "CXgate": 1, "CZgate": 1}
+
+
+def cancelling_block(rng, free):
+    """Gaussian commands (>= 2) that compose exactly to the identity: G(a); G(-a) / G; G.H (one shared instance and
+    its .H) / Fourier pairs / nested G1; G2; G2.H; G1.H, on one or two modes of `free`"""
+    def gate():
+        while True:
+            o = rand_float_op(rng, free, "gu")
+            o["dagger"] = False
+            if o["cls"] in ("Sgate", "S2gate", "Pgate", "CXgate", "CZgate", "Dgate", "Xgate", "Zgate"):
+                o["pars"][0] = round(o["pars"][0] * 0.3, 3)
+            if o["cls"] == "Fouriergate" or abs(o["pars"][0]) > 1e-3:
+                return o
+    g = gate()
+    inv = lambda o: dict(copy.deepcopy(o), dagger=not o["dagger"])
+    u = rng.random()
+    if u < 0.35 and g["cls"] in NEG_OK:
+        h = copy.deepcopy(g)
+        h["pars"][0] = -h["pars"][0]
+        return [g, h]
+    if u < 0.8:
+        return [g, inv(g)] if rng.random() < 0.7 else [inv(g), g]
+    g2 = gate()
+    return [g, g2, inv(g2), inv(g)]
+
+
+def rand_cancelling_hybrid(rng, small=False):
+    """a cancelling Gaussian block between two non-commuting non-Gaussian operations on a shared mode, the one
+    before it with more ancestors (two-mode non-Gaussian gate fed by other operations), plus random surroundings"""
+    if small or rng.random() < 0.7:
+        n = rng.randint(2, 3) if small else rng.randint(2, 5)
+        ms = list(range(n))
+    else:
+        n, ms = gc.rand_modes(rng)
+        ms = ms[:4]
+        if len(ms) < 2:
+            ms = [ms[0], ms[0] + 1]
+            n = max(n, ms[1] + 1)
+    amp = 0.25 if small else 0.6
+    ng1 = lambda m: dict(cls="Vgate", regs=[m], pars=[round(rng.choice([-1, 1]) * rng.uniform(0.03, 0.08), 3)], dagger=False) \
+        if rng.random() < 0.7 else dict(cls="Kgate", regs=[m], pars=[round(rng.uniform(-0.3, 0.3), 3)], dagger=False)
+    ops = []
+    b = rng.choice(ms)
+    others = [m for m in ms if m != b]
+    for _ in range(rng.randint(0, 3)):          # history of the other modes (ancestors of the gate before the block)
+        o = rand_float_op(rng, ms, "gu") if rng.random() < 0.6 else ng1(rng.choice(ms))
+        if o["cls"] in ("Sgate", "S2gate", "Pgate", "CXgate", "CZgate", "Dgate", "Xgate", "Zgate"):
+            o["pars"][0] = round(o["pars"][0] * amp / 0.8, 3)
+        ops.append(o)
+    a = rng.choice(others)
+    if rng.random() < 0.8:
+        ops.append(ng1(a))
+    if rng.random() < 0.75:
+        ops.append(dict(cls="CKgate", regs=rng.choice([[a, b], [b, a]]), pars=[round(rng.uniform(0.2, 0.7), 3)], dagger=False))
+    else:
+        ops.append(ng1(b))
+    block = cancelling_block(rng, [b] + ([rng.choice(others)] if rng.random() < 0.5 else []))
+    if not any(b in o["regs"] for o in block):
+        block = cancelling_block(rng, [b])
+    for o in block:
+        ops.append(o)
+        if rng.random() < 0.15:                  # an independent command written in between
+            m = [x for x in others if all(x not in y["regs"] for y in block)]
+            if m:
+                ops.append(ng1(rng.choice(m)))
+    ops.append(dict(cls="Vgate", regs=[b], pars=[round(rng.choice([-1, 1]) * rng.uniform(0.03, 0.08), 3)], dagger=False)
+               if rng.random() < 0.7 else
+               dict(cls="CKgate", regs=[b, rng.choice(others)], pars=[round(rng.uniform(0.2, 0.7), 3)], dagger=False))
+    for _ in range(rng.randint(0, 2)):
+        ops.append(rand_float_op(rng, ms, "gu") if rng.random() < 0.5 else ng1(rng.choice(ms)))
+        if ops[-1]["cls"] in ("Sgate", "S2gate", "Pgate", "CXgate", "CZgate", "Dgate", "Xgate", "Zgate"):
+            ops[-1]["pars"][0] = round(ops[-1]["pars"][0] * amp / 0.8, 3)
+    return dict(n=n, ops=ops)
+
+
 def wires_respected(before, after_groups, wires):
     """independent statement: `after_groups` (list of lists of ids) flattened is a permutation of `before` (ids) in
     which any two commands sharing a wire keep their order"""
@@ -649,6 +725,8 @@ def check_merge(ctx, spec, reqs, pending, fock=False):
             ctx.disagree("gaussian_merge step / GaussianUnitary.compile calls", spec, ">= 1 call per merge", len(cl))
             return
         members, emitted = cl[-1]      # earlier calls belong to candidate merges that were skipped
+        if not emitted:
+            ctx.tally("merge:cancelled-block-steps")
         b_ids, a_ids = [cid(c) for c in before], [cid(c) for c in after]
         m_ids = [i for i in b_ids if i in {cid(c) for c in members}]
         e_ids = [i for i in a_ids if i in {cid(c) for c in emitted}]
@@ -856,12 +934,12 @@ def run(ctx, sf):
         ctx.count("passive:float", spec, nontrivial(spec))
     # (c) gaussian_merge: certificate per step on hybrid circuits, Fock comparison on a sample
     for k in range(ctx.n(250, 3000)):
-        spec = rand_hybrid(rng)
+        spec = rand_cancelling_hybrid(rng) if k % 4 == 0 else rand_hybrid(rng)
         guarded(ctx, "merge", spec, check_merge, ctx, spec, reqs, pending)
         if len(reqs) > 600:
             compare(ctx, reqs, pending); reqs, pending = [], []
     for k in range(ctx.n(25, 300)):
-        spec = rand_hybrid(rng, small=True)
+        spec = rand_cancelling_hybrid(rng, small=True) if k % 3 == 0 else rand_hybrid(rng, small=True)
         guarded(ctx, "merge", spec, check_merge, ctx, spec, reqs, pending, fock=True)
     compare(ctx, reqs, pending)
 
